@@ -749,3 +749,24 @@ func TestD39_LangValueNotAString(t *testing.T) {
 		})
 	}
 }
+
+// D40 (known finding): the JSON body {} at a top-level Ptr(Struct) schema is taken for no record at all, where the
+// same empty record as a Go map reports the required field (the repository's TestTopLevelOptionalStruct pins it)
+func TestD40_EmptyObjectAtPtrRoot(t *testing.T) {
+	if os.Getenv("VERIF_DEMO_KNOWN") == "" {
+		t.Skip("known finding D40 (set VERIF_DEMO_KNOWN=1 to run)")
+	}
+	type U struct {
+		Name string `json:"name"`
+	}
+	s := z.Ptr(z.Struct(z.Schema{"name": z.String().Required()}))
+	var viaMap *U
+	em := s.Parse(map[string]any{}, &viaMap)
+	req := httptest.NewRequest("POST", "/", strings.NewReader(`{}`))
+	req.Header.Set("Content-Type", "application/json")
+	var viaJSON *U
+	ej := s.Parse(zhttp.Request(req), &viaJSON)
+	if len(em["name"]) != 1 || len(ej["name"]) != 1 || (viaMap == nil) != (viaJSON == nil) {
+		t.Fatalf("the empty record: Go map gives %v (dest %v), the JSON body {} gives %v (dest %v)", em, viaMap, ej, viaJSON)
+	}
+}
